@@ -70,7 +70,12 @@ field than they should (C11d, C11e); texts with stacked prefixes and signs (C13d
 word's lexical relatives (C01f); 31+ combining marks (C02f); the text of a key instead of the key
 (C04f); repeated member names (C17f); line feeds at buffer-size distances in *output* (C19f); the
 first candidate of a search and request sizes (C18d, C18f); boundary values on the command-line
-route when only the library route had them (C14e, C05f, C14f, C15f).  Two things held throughout:
+route when only the library route had them (C14e, C05f, C14f, C15f).  Round 7 (16 of 20): a side
+effect inside `debug_assert!` that only an ordinary release build shows (C04g: build-profile probe); a
+value that remembers what it was asked first (C02g: value re-use probe); an endless loop (C17g:
+watchdog); a changed public signature that stopped the harness from compiling (C12g); a `+` that
+`from_str_radix` accepts in place of a hex digit (C19g: digit-substitution family); repeated member
+names with surplus keys (C09g).  Two things held throughout:
 every miss was a missing *input family or observable*, never a wrong theorem or model, and every
 family added for one property was then applied to the others it fits.
 
